@@ -23,6 +23,12 @@ RULE = ("honest: 1..4 sequential requests on one connection for blobs of generat
         "looks like a protocol JSON reply, brace-heavy) and sizes (1 B..64 KiB quick, ..2 MiB thorough), both directions re-chunked "
         "by generated fragment sizes (1-byte, header split at every offset k in -3..3 around its closing brace, header glued to body, "
         "whole); non-trivial = header/body boundary strictly inside a fragment or exactly at a fragment end, with >=2 fragments. "
+        "downloader: BlobDownloader.download_blob of 1-2 blobs with generated peer_connect_timeout (1/3/8 s) and "
+        "blob_download_timeout (2/4/10/30 s) against 1..4 peers on the virtual clock: honest real servers whose connect / reply / "
+        "body times are 0..80% of the respective timeout, peers that never finish connecting, connect too late, refuse, or connect "
+        "and stay mute; with an honest peer the verified identical blob must be there within its connect+reply+body time + 3 s, "
+        "every connection attempt must end within peer_connect_timeout and every unanswered request within "
+        "blob_download_timeout; non-trivial = timeouts differ and a peer is slower than the smaller one or never answers. "
         "server: real server against a scripted client sending a generated sequence from a catalogue of valid / invalid / oversized / "
         "garbage requests; client: real client against a scripted server applying one misbehaviour from a catalogue at request "
         "position 0..2 followed by an honest transfer on a fresh connection; non-trivial there = a misbehaviour (not the control). "
@@ -32,6 +38,10 @@ ASSUMPTIONS = [
     "transport as asyncio's selector transport does (fatal error)",
     "timeouts are judged on the virtual clock: client bound = peer_connect_timeout + 2*blob_download_timeout, server bound = "
     "idle_timeout (+ transfer_timeout when a transfer was started)",
+    "downloader part: 'honest' timing means connect within peer_connect_timeout, reply header within blob_download_timeout of the "
+    "request and body within blob_download_timeout of the header (the meaning client.py gives the two settings); only margins of "
+    "<= 80% are generated, boundary timings are not judged; a connection without a pending request is an idle keep-alive and may "
+    "stay open",
     "a scripted reply that still delivers exactly the right bytes under a correct header may or may not verify (don't-care); "
     "whenever the blob verifies its stored bytes must hash to its name",
 ]
@@ -469,6 +479,228 @@ async def two_peers_async(case, out, loop):
     finally:
         for p in pumps:
             p.cancel()
+        await quiesce(loop)
+        await server_side.close()
+        await client_side.close()
+
+
+# =============================== part 1c: BlobDownloader with its configured timeouts ================================
+
+DL_KINDS = ["honest", "honest", "never_connects", "slow_connect", "refuses", "silent"]
+FRACS = [0.0, 0.1, 0.5, 0.8]
+
+
+def downloader_strategy(tier):
+    big = 65536 if tier == "quick" else 2 * MiB
+    peer = st.fixed_dictionaries({"kind": st.sampled_from(DL_KINDS), "fc": st.sampled_from(FRACS), "fl": st.sampled_from(FRACS),
+                                  "fb": st.sampled_from(FRACS), "slices": st.sampled_from([1, 2, 5, 20])})
+    return st.fixed_dictionaries({
+        "connect_t": st.sampled_from([1.0, 3.0, 3.0, 8.0]), "download_t": st.sampled_from([2.0, 4.0, 10.0, 30.0, 30.0]),
+        "blobs": st.lists(st.fixed_dictionaries({"kind": st.sampled_from(["random", "zeros", "json_prefix"]),
+                                                 "size": st.one_of(st.integers(1, 5000), st.integers(5000, big)),
+                                                 "seed": st.integers(0, 10 ** 6), "prefix_idx": st.integers(0, 9)}),
+                          min_size=1, max_size=2, unique_by=lambda b: (b["kind"], b["size"], b["seed"], b["prefix_idx"])),
+        "peers": st.lists(peer, min_size=1, max_size=4),
+        "save_blobs": st.sampled_from([True, True, False]),
+    })
+
+
+async def downloader_async(case, out, loop):
+    """BlobDownloader.download_blob against peers that differ in how long connecting, answering and sending take (virtual
+    seconds): an honest peer that stays inside peer_connect_timeout (connect) and blob_download_timeout (reply, body) always
+    delivers; an attempt to connect is given up after peer_connect_timeout, a mute connection after blob_download_timeout."""
+    from lbry.blob_exchange.server import BlobServerProtocol
+    from lbry.blob_exchange.downloader import BlobDownloader
+    from lbry.dht.peer import make_kademlia_peer
+    CT, DT = case["connect_t"], case["download_t"]
+    EPS = 0.05
+    server_side = await Side(loop).open()
+    client_side = await Side(loop, case["save_blobs"]).open()
+    cfg = types.SimpleNamespace(peer_connect_timeout=CT, blob_download_timeout=DT, max_connections_per_download=4)
+    pumps, attempts, conns = [], [], []
+    by_addr = {}
+    for i, pr in enumerate(case["peers"]):
+        by_addr[('5.6.7.%d' % (10 + i), 3333)] = dict(pr, c=(pr["fc"] * CT if pr["kind"] != "slow_connect" else CT * 1.5 + 1),
+                                                     l=pr["fl"] * DT, b=pr["fb"] * DT)
+
+    async def pump(ts, tc, ev, pr, rec):
+        """client->server at once; server->client: reply latency before the first byte of each reply, the rest in `slices`
+        equal slices spread over `b` virtual seconds"""
+        replying = False
+        while True:
+            moved = False
+            if tc.out and not ts.is_closing():
+                data = bytes(tc.out)
+                del tc.out[:]
+                ts.feed(data)
+                rec["req_at"] = loop.time()
+                replying = False
+                moved = True
+                await asyncio.sleep(0)
+            if ts.out and not tc.is_closing() and pr["kind"] != "silent":
+                if not replying:
+                    replying = True
+                    if pr["l"]:
+                        await asyncio.sleep(pr["l"])
+                    # let the server finish writing this reply (its file reads run in the executor); other pumps may be
+                    # busy at the same time, so look at this connection's buffer only
+                    stable, last = 0, -1
+                    for _ in range(20000):
+                        await asyncio.sleep(0)
+                        stable = stable + 1 if (loop._inflight == 0 and len(ts.out) == last) else 0
+                        last = len(ts.out)
+                        if stable >= 8:
+                            break
+                # the json header of the reply arrives in one piece after the latency, the body follows in slices
+                he = json_end(bytes(ts.out[:4096]))
+                if he > 0 and not tc.is_closing():
+                    data = bytes(ts.out[:he])
+                    del ts.out[:he]
+                    tc.feed(data)
+                    await asyncio.sleep(0)
+                total = len(ts.out)
+                n = pr["slices"]
+                step = max(1, -(-total // n))
+                k = 0
+                while ts.out and not tc.is_closing():
+                    data = bytes(ts.out[:step])
+                    del ts.out[:step]
+                    tc.feed(data)
+                    k += 1
+                    if ts.out and pr["b"] and k < n:
+                        await asyncio.sleep(pr["b"] / n)
+                    else:
+                        await asyncio.sleep(0)
+                moved = True
+            if ts.out and (tc.is_closing() or pr["kind"] == "silent"):
+                del ts.out[:]
+            if tc.out and ts.is_closing():
+                del tc.out[:]
+            if ts.is_closing() and not tc.is_closing() and not ts.out:
+                tc.peer_closed()
+            if tc.is_closing() and not ts.is_closing() and not tc.out:
+                ts.peer_closed()
+            if not moved:
+                ev.clear()
+                if tc.out or (ts.out and pr["kind"] != "silent"):
+                    await asyncio.sleep(0)
+                    continue
+                await ev.wait()
+
+    async def create_connection(factory, host, port, **kw):
+        pr = by_addr[(host, port)]
+        rec = {"kind": pr["kind"], "start": loop.time(), "end": None, "how": None}
+        attempts.append(rec)
+        try:
+            if pr["kind"] == "never_connects":
+                await asyncio.sleep(10 ** 7)
+            if pr["c"]:
+                await asyncio.sleep(pr["c"])
+            if pr["kind"] == "refuses":
+                rec["end"], rec["how"] = loop.time(), "refused"
+                raise ConnectionRefusedError("refused")
+        except asyncio.CancelledError:
+            rec["end"], rec["how"] = loop.time(), "cancelled"
+            raise
+        rec["end"], rec["how"] = loop.time(), "connected"
+        protocol = factory()
+        server = BlobServerProtocol(loop, server_side.bm, ADDR, idle_timeout=600.0, transfer_timeout=600.0)
+        ts = PipeTransport(loop, server, ('1.2.3.4', 4444))
+        tc = PipeTransport(loop, protocol, (host, port))
+        ev = asyncio.Event()
+        ts.on_activity = tc.on_activity = ev.set
+        server.connection_made(ts)
+        protocol.connection_made(tc)
+        conns.append({"kind": pr["kind"], "at": loop.time(), "tc": tc, "req_at": None})
+        pumps.append(asyncio.ensure_future(pump(ts, tc, ev, pr, conns[-1])))
+        return tc, protocol
+    loop.create_connection = create_connection
+    q = asyncio.Queue()
+    dl = BlobDownloader(loop, cfg, client_side.bm, q)
+    try:
+        peers = [make_kademlia_peer(None, a, tcp_port=p_) for (a, p_) in by_addr]
+        q.put_nowait(peers)
+        honest = [pr for pr in by_addr.values() if pr["kind"] == "honest"]
+        best = min((pr["c"] + pr["l"] + pr["b"] for pr in honest), default=None)
+        kinds = sorted({pr["kind"] for pr in by_addr.values()})
+        for k in kinds:
+            out.label("peer:" + k)
+        out.label("CT<DT" if CT < DT else "CT>DT" if CT > DT else "CT=DT")
+        lo = min(CT, DT)
+        out.nontrivial = CT != DT and (any(pr["l"] > lo or pr["b"] > lo for pr in honest)
+                                       or any(k in kinds for k in ("never_connects", "slow_connect", "silent")))
+        if any(pr["l"] > CT or pr["b"] > CT for pr in honest):
+            out.label("honest_slower_than_connect_timeout")
+        seen_contents = set()
+        for bi, b in enumerate(case["blobs"]):
+            content = make_content(b["kind"], b["size"], b["seed"], b["prefix_idx"])
+            if content in seen_contents:
+                continue
+            seen_contents.add(content)
+            h = await server_side.add_verified(content)
+            t0 = loop.time()
+            task = asyncio.ensure_future(dl.download_blob(h))
+            horizon = (best + 3.0) if honest else 2 * (CT + DT) + 5
+            done, _ = await asyncio.wait([task], timeout=horizon + 200 if honest else horizon)
+            if not done:
+                task.cancel()
+                try:
+                    await task
+                except (asyncio.CancelledError, Exception):
+                    pass
+                if honest:
+                    out.violate("downloader:honest-peer-inside-timeouts-never-delivers",
+                                "peer_connect_timeout %.0f blob_download_timeout %.0f; honest peers (connect, reply, body seconds) %r; "
+                                "nothing after %.0f virtual s" % (CT, DT, [(pr["c"], pr["l"], pr["b"]) for pr in honest], horizon + 200))
+                    break
+                cb = client_side.bm.get_blob(h)
+                out.check(not cb.get_is_verified(), "downloader:verified-without-honest-peer", "")
+                out.label("no_honest_peer")
+                continue
+            try:
+                cb = task.result()
+            except Exception as e:
+                out.violate("downloader:download_blob-raises:%s" % type(e).__name__, repr(e)[:200])
+                break
+            elapsed = loop.time() - t0
+            if not honest:
+                out.violate("downloader:returned-without-honest-peer", "")
+                break
+            if not out.check(cb.get_is_verified(), "downloader:returned-unverified-blob", ""):
+                break
+            if case["save_blobs"]:
+                out.check(client_side.file_bytes(h) == content, "downloader:file-differs", "")
+            else:
+                with cb.reader_context() as r:
+                    out.check(r.read() == content, "downloader:buffer-differs", "")
+            out.check(elapsed <= best + 3.0, "downloader:honest-transfer-needed-a-timeout",
+                      "elapsed %.1f virtual s, fastest honest peer needs %.1f (connect/reply/body); timeouts %.0f/%.0f" % (
+                          elapsed, best, CT, DT))
+            out.label("blob#%d" % bi)
+        # let every pending attempt / mute connection run into its timeout, then judge them
+        await asyncio.sleep(CT + DT + 2)
+        for rec in attempts:
+            end = rec["end"] if rec["end"] is not None else loop.time()
+            out.check(end - rec["start"] <= CT + EPS, "downloader:connect-attempt-outlives-peer_connect_timeout",
+                      "%s: attempt lasted %.1f virtual s (%s), peer_connect_timeout %.0f, blob_download_timeout %.0f" % (
+                          rec["kind"], end - rec["start"], rec["how"] or "still pending", CT, DT))
+        for c in conns:
+            if c["kind"] == "silent" and c["req_at"] is not None:
+                # a request went out and was never answered (a connection without a pending request is an idle keep-alive)
+                tc = c["tc"]
+                end = tc.closed_at if tc.closed_at is not None else loop.time()
+                out.check(tc.is_closing() and end - c["req_at"] <= DT + EPS, "downloader:mute-connection-outlives-blob_download_timeout",
+                          "request unanswered for %.1f virtual s, blob_download_timeout %.0f, peer_connect_timeout %.0f" % (
+                              end - c["req_at"], DT, CT))
+                out.label("mute_connection_judged")
+        for c in conns:
+            if c["tc"].fatal:
+                out.violate("downloader:protocol-exception:%s" % type(c["tc"].fatal).__name__, repr(c["tc"].fatal)[:200])
+                break
+    finally:
+        dl.close()
+        for p_ in pumps:
+            p_.cancel()
         await quiesce(loop)
         await server_side.close()
         await client_side.close()
@@ -956,6 +1188,9 @@ PARTS = [
                     "size=2MiB")),
     Part("two_peers", two_peers_strategy, lambda c: _run(two_peers_async, c), 120, 800, quick_shards=4, thorough_shards=16,
          essential=("peers:2", "peers:3")),
+    Part("downloader", downloader_strategy, lambda c: _run(downloader_async, c), 200, 1200, quick_shards=4, thorough_shards=16,
+         essential=("peer:honest", "peer:never_connects", "peer:slow_connect", "peer:silent", "peer:refuses", "CT<DT", "CT>DT",
+                    "honest_slower_than_connect_timeout", "no_honest_peer", "blob#1")),
     Part("server", server_strategy, lambda c: _run(server_async, c), 300, 1500, quick_shards=4, thorough_shards=16,
          essential=tuple("req:" + k for k in sorted(set(REQ_KINDS)))),
     Part("client", client_strategy, lambda c: _run(client_async, c), 300, 1500, quick_shards=6, thorough_shards=16,
